@@ -25,7 +25,7 @@
 //    lowest expiry among the HTLCs held when the payment was initiated - height known - safety delta
       req.max_cltv_delta as int <= max0(old(w).min_expiry_read - old(w).height_read - old(w).cltv_delta as int)
       && req.max_cltv_delta as int <= old(w).pol_delta as int
-//@ requires#height_is_the_one_known_at_initiation [C04]
+//@ requires#height_is_the_one_known_at_initiation [C04,C19]
 //    the height used is not older than the best height known when the payment was initiated
       old(w).height_read >= old(w).height_at_init
 //@ requires#amount_rule [C03]
